@@ -18,8 +18,15 @@ pub struct Rng(pub u64);
 
 impl Rng {
     pub fn new(seed: u64, index: u64) -> Self {
-        let mut r = Rng(seed ^ 0x9E37_79B9_7F4A_7C15u64.wrapping_mul(index.wrapping_add(1)));
-        r.next();
+        // hash (seed, index) into an unrelated starting state: splitmix64 streams whose
+        // states differ by a multiple of the increment are shifted copies of each other
+        fn mix(mut z: u64) -> u64 {
+            z = (z ^ (z >> 30)).wrapping_mul(0xBF58_476D_1CE4_E5B9);
+            z = (z ^ (z >> 27)).wrapping_mul(0x94D0_49BB_1331_11EB);
+            z ^ (z >> 31)
+        }
+        let s = mix(mix(seed.wrapping_add(0x9E37_79B9_7F4A_7C15)) ^ mix(index.wrapping_mul(0xD6E8_FEB8_6659_FD93).wrapping_add(1)));
+        let mut r = Rng(s);
         r.next();
         r
     }
